@@ -305,7 +305,7 @@ def gen_item(rng, names, allow_bad):
     raise core.HarnessError("no generator for " + n)
 
 
-LIBCALLS = ["exact_predict", "kl_divergence", "hetero_noise", "cylindrical", "lazy_kernel_eval"]
+LIBCALLS = ["exact_predict", "kl_divergence", "hetero_noise", "cylindrical", "lazy_kernel_eval", "lazy_kernel_prebuilt"]
 
 
 def gen_block(rng, cfg, depth):
@@ -420,6 +420,15 @@ def _libcall(kind, fault, k, out):
         elif kind == "lazy_kernel_eval":
             kern = FaultyRBF().double()
             lz = kern(x, xs)
+            lz.to_dense()
+        elif kind == "lazy_kernel_prebuilt":
+            # a lazily evaluated kernel tensor that exists already (built under lazily_evaluate_kernels(True)) is evaluated,
+            # multiplied and differentiated under the ambient settings: the library opens its own blocks for that
+            kern = gpytorch.kernels.ScaleKernel(FaultyRBF()).double()
+            with gpytorch.settings.lazily_evaluate_kernels(True):
+                lz = kern(x, xs)
+                lz2 = kern(x)
+            (lz2 @ torch.ones(5, 1, dtype=torch.float64)).sum().backward()
             lz.to_dense()
         elif kind == "cylindrical":
             kern = gpytorch.kernels.CylindricalKernel(3, FaultyRBF()).double()
